@@ -4,6 +4,7 @@ package main
 
 import (
 	"fmt"
+	"go/types"
 	"strings"
 
 	"golang.org/x/tools/go/ssa"
@@ -36,6 +37,7 @@ func stripNodeConv(v ssa.Value) ssa.Value {
 func ruleReplacementFromCurrentNode(w *World, r *Report) {
 	r.Rule("C05-H", "Replace-in-a-loop: where a loop carries a node variable n that it detaches (RemoveChild/ReplaceChild of n) and re-points to a newly constructed node in the same loop (a text node split at several positions), every node constructor called in that loop takes its arguments from the current n — the data flow from a constructor argument back to its sources, stopped at the loop's own merge points, does not reach the value n had when the loop was entered. A segment remembered from the original node is stale after the first replacement: the second split cuts the original range again, so the pieces overlap, are out of document order, and cover bytes twice.")
 	n := 0
+	nodeIt := w.Iface("ast", "Node")
 	perFn := map[*ssa.Function]int{}
 	for _, fn := range w.Funcs {
 		if fn.Synthetic != "" {
@@ -48,7 +50,7 @@ func ruleReplacementFromCurrentNode(w *World, r *Report) {
 				if !ok {
 					break
 				}
-				if !isNodeIface(phi.Type()) {
+				if !isNodeIface(phi.Type()) && !(nodeIt != nil && types.Implements(phi.Type(), nodeIt)) {
 					continue
 				}
 				// re-pointed to a constructed node inside the loop
